@@ -360,6 +360,32 @@ pub fn build<'src, I: HInput<'src>, E: HErr<'src, I>>(g: &G, cx: &Cx<'src, I, E>
             })
             .bx()
         }
+        G::CNextMaybe(msg) => {
+            let msg = *msg;
+            custom(move |inp| {
+                let before = inp.cursor();
+                let ahead = inp.peek_maybe().map(|t| *t);
+                match inp.next_maybe() {
+                    Some(c) => {
+                        assert!(ahead == Some(*c), "harness: peek_maybe and next_maybe disagree");
+                        Ok(Val::Tok(*c as u32))
+                    }
+                    None => {
+                        assert!(ahead.is_none(), "harness: peek_maybe sees a token where next_maybe sees none");
+                        Err(E::user(inp.span_since(&before), msg))
+                    }
+                }
+            })
+            .bx()
+        }
+        G::CParse(a) => {
+            let p = b(a);
+            custom(move |inp| inp.parse(p.clone())).bx()
+        }
+        G::CCheck(a) => {
+            let p = b(a);
+            custom(move |inp| inp.check(p.clone()).map(|()| Val::Unit)).bx()
+        }
         G::CTake2(msg) => {
             let msg = *msg;
             custom(move |inp| {
